@@ -2,7 +2,7 @@
    One theorem per parser/serialiser pair of the model; see DESIGN.md for the pairs that
    are so far covered by the correspondence check and oracle only. *)
 From Model Require Import Bytes Prim Tables Cert KAC Mapping Sig LS RI.
-From Proofs Require Import BytesLemmas PrimProofs Frame LeafProofs KacRT OffProofs MapRT LS2RT UptoRT LSRT Retail.
+From Proofs Require Import BytesLemmas PrimProofs Frame LeafProofs KacRT OffProofs MapRT LS2RT UptoRT LSRT Retail LSStrip.
 Open Scope Z_scope.
 
 Theorem C01_certificate : forall x c r, wf x -> read_certificate x = Ok (c, r) ->
@@ -137,3 +137,9 @@ Proof.
   intros x c r W H. destruct (read_certificate_retail x c r [] W H) as [b [c' [CB [_ [R [CB' _]]]]]].
   rewrite app_nil_r in R. exists b, c'. auto.
 Qed.
+(* LeaseSet (version 1): the serialisation of a parsed value is a prefix of the input and, alone,
+   parses to the very same value (ReadLeaseSet returns no remainder) *)
+Theorem C01_lease_set_serialisation_parses_back : forall d l, wf d -> read_lease_set d = Ok l ->
+  exists b r, lease_set_bytes l = Ok b /\ b ++ r = d /\ read_lease_set b = Ok l.
+Proof. exact read_lease_set_strip. Qed.
+Print Assumptions C01_lease_set_serialisation_parses_back.
